@@ -142,6 +142,16 @@ BOUND_KINDS = ("default", "finite-in", "finite-out", "lower-in", "lower-out", "m
 
 
 def random_conc(rng: np.random.Generator, cname: str, kind: str, small_m: bool = False) -> Conc:
+    conc = _random_conc(rng, cname, kind, small_m)
+    if not small_m and conc.M0 >= 1e5 and conc.t[-1] >= 300 and rng.random() < 0.5:
+        # records kept as whole numbers (day counts, volumes in integer units): integer arrays
+        t = np.unique(np.round(conc.t)).astype(np.int64)
+        conc.t = t
+        conc.y = np.round(conc.M0 * curve(conc.curve)(t / conc.tau0)).astype(np.int64)
+    return conc
+
+
+def _random_conc(rng: np.random.Generator, cname: str, kind: str, small_m: bool = False) -> Conc:
     m0 = 10 ** (rng.uniform(-7, -5) if small_m else rng.uniform(*M_DECADES))
     tau0 = 10 ** rng.uniform(*TAU_DECADES)
     t = window(rng, tau0)
@@ -234,6 +244,28 @@ def fit_event(fc, conc: Conc, sup: float | None, rng: np.random.Generator | None
     return ev
 
 
+def rebound_event(fc, conc: Conc, rng: np.random.Generator) -> dict:
+    """The caller assigns other limits to the object's public `bounds` field (a tightened study, a relaxed one): later fits are
+    judged against them.  The concrete reading `conc` is updated along."""
+    from bluebonnet.forecast import Bounds  # noqa: PLC0415
+
+    u = rng.uniform
+    mstyle = "finite" if rng.random() < 0.6 else "lower"
+    tstyle = "finite" if rng.random() < 0.6 else "lower"
+    how = int(rng.integers(3))
+    mlo = conc.M0 * (10 ** -u(0.1, 1.5) if how != 1 else 10 ** u(0.05, 0.5))        # how = 1: the generating M is excluded
+    tlo = conc.tau0 * (10 ** -u(0.1, 1.5) if how != 2 else 10 ** u(0.05, 0.5))      # how = 2: the generating tau is excluded
+    mb = (mlo, mlo * 10 ** u(0.3, 2.0)) if mstyle == "finite" else (mlo, math.inf)
+    tb = (tlo, tlo * 10 ** u(0.3, 2.0)) if tstyle == "finite" else (tlo, math.inf)
+    try:
+        fc.bounds = Bounds(M=mb, tau=tb)
+        outcome = "ok"
+    except Exception as ex:  # noqa: BLE001
+        outcome = type(ex).__name__
+    conc.mb, conc.tb, conc.mstyle, conc.tstyle, conc.default = mb, tb, mstyle, tstyle, False
+    return {"ev": "Rebound", "mstyle": mstyle, "tstyle": tstyle, "outcome": outcome, "raw": {"M_bounds": list(mb), "tau_bounds": list(tb)}}
+
+
 def cum_event(fc, conc: Conc, m_arg: float | None, tau_arg: float | None, rng: np.random.Generator) -> dict:
     rf = curve(conc.curve)
     t = conc.t[1:: max(1, len(conc.t) // 25)]
@@ -285,7 +317,10 @@ def object_events(cname: str, kind: str, seed, small_m: bool, ncalls: int) -> tu
         r = rng.random()
         if i == 0 and r < 0.5:
             r = 0.9  # often a forecast before any fit
-        if r < 0.35:
+        if r < 0.07:
+            calls.append(("rebound",))
+            evs.append(rebound_event(fc, conc, rng))
+        elif r < 0.35:
             calls.append(("fit", None))
             evs.append(fit_event(fc, conc, None, rng))
         elif r < 0.6:
@@ -295,6 +330,8 @@ def object_events(cname: str, kind: str, seed, small_m: bool, ncalls: int) -> tu
             evs.append(fit_event(fc, conc, sup, rng))
         else:
             m_arg = float(conc.M0 * 10 ** rng.uniform(-1, 1)) if rng.random() < 0.4 else None
+            if m_arg is not None and rng.random() < 0.15:
+                m_arg = 0.0   # an explicit resource of zero is an argument like any other: the forecast is zero
             t_arg = float(conc.tau0 * 10 ** rng.uniform(-1, 1)) if rng.random() < 0.4 else None
             calls.append(("forecast", m_arg, t_arg))
             evs.append(cum_event(fc, conc, m_arg, t_arg, rng))
